@@ -168,6 +168,49 @@ func TestC06_History(t *testing.T) {
 			if !checkBlock(b) {
 				return
 			}
+			// the node is taken through a reorganisation now and then: the commitments of the head it
+			// ends up on must describe the stored state exactly as if the abandoned branch had never
+			// been seen (the replay hierarchy below only ever sees the final chain)
+			if rapid.IntRange(0, 4).Draw(t, "reorgEpisode") == 0 {
+				B := a.Fork(a.Salt + 3000 + uint64(i))
+				forkLog := len(a.Log)
+				for k, dA := 0, rapid.IntRange(1, 3).Draw(t, "depthA"); k < dA; k++ {
+					a.Traffic(t)
+					if a.ZoneNumber() >= 3 && rapid.Bool().Draw(t, "shareA") {
+						if _, err := a.WorkShare(t); err != nil {
+							t.Fatalf("HARNESS: workshare: %v", err)
+						}
+					}
+					if _, err := a.MineRandom(t); err != nil {
+						t.Fatalf("HARNESS: mine A: %v\n%s", err, strings.Join(a.Log, "\n"))
+					}
+					if err := a.Adopt(); err != nil {
+						t.Fatalf("HARNESS: adopt A: %v\n%s", err, strings.Join(a.Log, "\n"))
+					}
+				}
+				if fp, msg := sim.CheckHeadCommitment(zone); fp != "" {
+					stats.Violation(t, part, "C06/commitment/"+fp, "on branch A: "+msg, dump())
+					return
+				}
+				A := a
+				a = B // from here on the node follows branch B (checkBlock adopts the actor's heads)
+				for k, dB := 0, rapid.IntRange(1, 3).Draw(t, "depthB"); k < dB; k++ {
+					if err := a.Adopt(); err != nil {
+						t.Fatalf("HARNESS: adopt B: %v", err)
+					}
+					a.Traffic(t)
+					bb, err := a.MineRandom(t)
+					if err != nil {
+						t.Fatalf("HARNESS: mine B: %v\n%s", err, strings.Join(a.Log, "\n"))
+					}
+					if !checkBlock(bb) {
+						return
+					}
+				}
+				own := append([]string{}, a.Log[forkLog:]...)
+				a.Log = append(append(append([]string{}, A.Log...), "-- reorganisation: the entries since the fork above are branch A; the node now follows branch B:"), own...)
+				stats.Label(part, "reorg_episode")
+			}
 		}
 		_ = preludeDone
 
